@@ -61,7 +61,9 @@ inductive WrapKind
   | withIssueLink (url det : Str)
   | withTelemetry (keys : List Str)
   | withDomain (dom : Str)
-  | withContext (tags : List (Str × Str)) (redacted : Option (List Str))
+  /-- `kinds` = what each tag value is at the process that attached the tags: 0 a plain
+      (unsafe) value, 1 a `redact.Safe` value, 2 nil; missing = 0.  Decoded tags are strings. -/
+  | withContext (tags : List (Str × Str)) (kinds : List Nat) (redacted : Option (List Str))
   | withAssertionFailure
   | withSafeDetails (l : List Str)
   | withMark (msg : Str) (tys : List TMark)
